@@ -26,6 +26,43 @@ func randomFiles(seed int64) []*descriptorpb.FileDescriptorProto {
 	for i := range names {
 		names[i] = fmt.Sprintf("R%d", i)
 	}
+	// nesting: flat, R2 declared inside R1, or the chain R0 > R1 > R2; a nested declaration is put at a random position
+	// among its parent's nested types, so it may come before, between or after the synthetic map entries
+	full := make([]string, nMsg)
+	parent := make([]int, nMsg)
+	for i := range parent {
+		parent[i] = -1
+	}
+	switch r.Intn(3) {
+	case 1:
+		parent[2] = 1
+	case 2:
+		parent[1], parent[2] = 0, 1
+	}
+	for i := range names {
+		full[i] = names[i]
+		for p := parent[i]; p >= 0; p = parent[p] {
+			full[i] = names[p] + "." + full[i]
+		}
+	}
+	// an enum nested in R0, possibly with aliases (several names for one number)
+	neVals := []*descriptorpb.EnumValueDescriptorProto{{Name: proto.String("NE_ZERO"), Number: proto.Int32(0)}}
+	neSeen, neAlias := map[int32]bool{0: true}, false
+	for k := 0; k < 2+r.Intn(4); k++ {
+		n := int32(r.Intn(5) - 1)
+		if r.Intn(4) == 0 {
+			n = int32(r.Intn(400) - 200)
+		}
+		if neSeen[n] {
+			neAlias = true
+		}
+		neSeen[n] = true
+		neVals = append(neVals, &descriptorpb.EnumValueDescriptorProto{Name: proto.String(fmt.Sprintf("NE_V%d", k)), Number: proto.Int32(n)})
+	}
+	ne := &descriptorpb.EnumDescriptorProto{Name: proto.String("NE"), Value: neVals}
+	if neAlias {
+		ne.Options = &descriptorpb.EnumOptions{AllowAlias: proto.Bool(true)}
+	}
 	mapKeys := []string{"int32", "int64", "uint32", "uint64", "sint32", "sint64", "fixed32", "fixed64", "sfixed32", "sfixed64", "bool", "string"}
 	kt := map[string]dpType{}
 	for _, k := range scalarKinds {
@@ -57,15 +94,20 @@ func randomFiles(seed int64) []*descriptorpb.FileDescriptorProto {
 	pickType := func() (dpType, string) {
 		switch r.Intn(10) {
 		case 0:
+			if r.Intn(2) == 0 {
+				return tEnum, ".corpus.rnd.R0.NE"
+			}
 			return tEnum, ".corpus.rnd.RE"
 		case 1, 2:
-			return tMsg, ".corpus.rnd." + names[r.Intn(nMsg)]
+			return tMsg, ".corpus.rnd." + full[r.Intn(nMsg)]
 		}
 		k := scalarKinds[r.Intn(len(scalarKinds))]
 		return k.t, ""
 	}
+	built := make([]*msgB, nMsg)
 	for i := 0; i < nMsg; i++ {
-		m := newMsg(names[i], "corpus.rnd."+names[i])
+		m := newMsg(names[i], "corpus.rnd."+full[i])
+		built[i] = m
 		used := map[int32]bool{}
 		nf := 4 + r.Intn(7)
 		oneofOpen := int32(-1)
@@ -104,7 +146,20 @@ func randomFiles(seed int64) []*descriptorpb.FileDescriptorProto {
 				m.member(oneofOpen, name, num, t, tn)
 			}
 		}
-		rf.MessageType = append(rf.MessageType, m.m)
+	}
+	built[0].m.EnumType = append(built[0].m.EnumType, ne)
+	for i := nMsg - 1; i >= 0; i-- {
+		if parent[i] < 0 {
+			continue
+		}
+		pm := built[parent[i]].m
+		at := r.Intn(len(pm.NestedType) + 1)
+		pm.NestedType = append(pm.NestedType[:at], append([]*descriptorpb.DescriptorProto{built[i].m}, pm.NestedType[at:]...)...)
+	}
+	for i := 0; i < nMsg; i++ {
+		if parent[i] < 0 {
+			rf.MessageType = append(rf.MessageType, built[i].m)
+		}
 	}
 	return []*descriptorpb.FileDescriptorProto{rf}
 }
